@@ -22,6 +22,11 @@ def configs(tier, seed):
         # the same body reached through the model option
         cfgs.append(dict(metric=name, n=2, kind="equiv", via="model", weight=4, timeout_ms=20000))
         cfgs.append(dict(metric=name, n=2 if tier == "quick" else 3, kind="finite", weight=4, timeout_ms=20000))
+        if name in SPEC.SUM_KERNEL:
+            # beyond the directly compared lengths: value on n-vectors = sum of the one-coordinate kernels, for the
+            # code and for the closed form; with the n = 1 equality this gives the closed form at these lengths too
+            for n in ([5, 6, 8] if tier == "quick" else [7, 8, 10, 12, 16]):
+                cfgs.append(dict(metric=name, n=n, kind="decomp", weight=n, timeout_ms=20000 if tier == "quick" else 120000))
     return cfgs
 
 
@@ -32,7 +37,7 @@ def signature(prop, cfg, viol):
 
 def describe(v, tier):
     v.bounds = dict(metrics="all 47 registry entries, reached through DISTANCES[name] and through OPF(distance=name).distance_fn",
-                    vector_length="1..4 (quick) / 1..6 (thorough)",
+                    vector_length="1..4 (quick) / 1..6 (thorough) directly; the 27 sum-type metrics additionally at 5, 6, 8 (quick) / up to 16 (thorough) through the kernel decomposition",
                     registry="one z3 string query per direction: exists s accepted by the setter's whitelist (read from the current source) but not a registry key, and vice versa")
     v.assumptions = ["real arithmetic: 'up to floating-point rounding' is read as equality of the formulas over the reals",
                      "domains as in spec/metrics.py (R: all reals, P: componentwise >= 0), |x_i| <= 1e6",
